@@ -39,8 +39,11 @@ func terminal(t byte) bool {
 	return false
 }
 
+// find returns the newest entry with that identifier: an identifier may be used again once
+// the request that carried it has reached its terminal acknowledgement, even while that
+// request still waits for earlier ones to be handed back.
 func (l *listq) find(id uint16) int {
-	for i := range l.q {
+	for i := len(l.q) - 1; i >= 0; i-- {
 		if l.q[i].id == id {
 			return i
 		}
@@ -65,6 +68,7 @@ type op struct {
 	dup   bool
 	id    uint16
 	alt   bool // acknowledgement with other content (SUBACK with another return code)
+	pad   bool // acknowledgement whose remaining length is written in one byte more than necessary
 }
 
 func (o op) String() string {
@@ -83,6 +87,9 @@ func (o op) String() string {
 		}
 		if o.alt {
 			return fmt.Sprintf("Ack(%s id=%d, other return code)", refcodec.Name(o.mtype), o.id)
+		}
+		if o.pad {
+			return fmt.Sprintf("Ack(%s id=%d, length field padded)", refcodec.Name(o.mtype), o.id)
 		}
 		return fmt.Sprintf("Ack(%s id=%d)", refcodec.Name(o.mtype), o.id)
 	}
@@ -111,6 +118,9 @@ func ackPacket(o op) *refcodec.Packet {
 		return &refcodec.Packet{Type: refcodec.SUBACK, ID: o.id, Codes: []byte{1}}
 	case refcodec.PINGRESP:
 		return &refcodec.Packet{Type: refcodec.PINGRESP}
+	}
+	if o.pad {
+		return &refcodec.Packet{Type: o.mtype, ID: o.id, PadLength: 1}
 	}
 	return &refcodec.Packet{Type: o.mtype, ID: o.id}
 }
@@ -180,7 +190,9 @@ func (in *instance) apply1(o op) string {
 			in.model.pings = append(in.model.pings, entry{mtype: p.Type, msg: wire})
 			return ""
 		}
-		if in.model.find(o.id) < 0 {
+		// a registration is a repetition (and changes nothing) while a request with that
+		// identifier is in flight; once that request is terminal the identifier is free
+		if i := in.model.find(o.id); i < 0 || terminal(in.model.q[i].state) {
 			in.model.q = append(in.model.q, entry{id: o.id, mtype: p.Type, msg: wire})
 		}
 	case opAck:
@@ -304,6 +316,9 @@ func alphabetA() []op {
 	// a second SUBACK for the same request with another return code: the final
 	// acknowledgement is the one that counts
 	ops = append(ops, op{kind: opAck, mtype: refcodec.SUBACK, id: 2, alt: true})
+	// acknowledgements in the longer form the decoders accept (5 bytes instead of 4): the
+	// copy handed back has to be byte-identical all the same
+	ops = append(ops, op{kind: opAck, mtype: refcodec.PUBACK, id: 1, pad: true}, op{kind: opAck, mtype: refcodec.PUBCOMP, id: 2, pad: true})
 	ops = append(ops, op{kind: opAck, mtype: refcodec.PINGRESP})
 	ops = append(ops, op{kind: opAcked})
 	return ops
